@@ -25,10 +25,11 @@ def doc_template(p):
     rm = p['opts'].get('removal-marker-tag-name', [DEFAULTS['removal-marker-tag-name']])[0]
     big = []
     if p.get('big'):   # ~9 KB of three-byte characters, placed so that byte offsets 4096 and 8192 fall inside a character
-        big = ["あいうえおかきくけこさしすせそたちつてとなにぬねのはひふへほ\n" * 100]
+        big = ["あいうえおかきくけこさしすせそたちつてとなにぬねのはひふへほ\n" * (100 * int(p['big']))]
+    tail = [p['tail']] if p.get('tail') else []
     return big + ["A", H(p.get('hole', 1), 'txt'), "\n", O(rm, "name='" + p.get('name1', 'x') + "'"), "\nq\n", C(rm), "\nB\n",
             O(tl, "to='2001-01-01 00:00:00'"), "t", C(tl), " ", O(rm, "name='" + p.get('name2', 'y') + "'"), "u", C(rm), "\n",
-            O(tl, "to='2010-01-01 00:00:00'"), "\nv\n", C(tl), "\nC", H(p.get('hole', 1), 'nb'), "\n"]
+            O(tl, "to='2010-01-01 00:00:00'"), "\nv\n", C(tl), "\nC", H(p.get('hole', 1), 'nb'), "\n"] + tail
 
 
 @harness('c20_cli', covers=['input-from-file', 'input-from-stdin', 'output-to-file', 'output-to-stdout', 'output-is-input-file', 'targets-from-file',
@@ -55,7 +56,10 @@ def c20_cli(ctx, p):
             ctx.constrain(z3.And(z3.UGE(b, 0x20), b != 34, b != 92, b != 0x7f))
     files = {k: list(v.encode()) for k, v in p.get('files', {}).items()}
     stdin = None
-    if 'filename' in opts:
+    if 'filename' in opts and p['opts']['filename'][0] == '/dev/stdin':
+        stdin = list(doc)     # a path that is not a regular file: its content is whatever standard input delivers
+        ctx.cover('input-from-file')
+    elif 'filename' in opts:
         files[p['opts']['filename'][0]] = list(doc)
         ctx.cover('input-from-file')
     else:
@@ -167,6 +171,10 @@ def c20_jobs(tier, seed):
     J('empty config file, marker with empty name', opts=dict(base, **{'removal-marker-target-config': ['t.cfg']}), files={'t.cfg': ''}, name1='')
     J('large multi-byte document from stdin', opts=dict(base, **{'removal-marker-target-name': ['x']}), big=1)
     J('large multi-byte document from a file', opts=dict(base, **{'removal-marker-target-name': ['x'], 'filename': ['in.txt']}), big=1)
+    J('input path is not a regular file (/dev/stdin)', opts=dict(base, **{'removal-marker-target-name': ['x'], 'filename': ['/dev/stdin']}))
+    # the last line is long and has no line break behind it (line-buffered writers treat such a tail differently)
+    J('long unterminated last line to stdout', opts=dict(base, **{'removal-marker-target-name': ['x']}), tail='z' * 1500)
+    J('long unterminated last line, file to file', opts=dict(base, **{'removal-marker-target-name': ['x'], 'filename': ['in.txt'], 'output': ['out.txt']}), tail='é' * 1200)
     J('large multi-byte document from stdin, list-json', opts=dict(base, **{'removal-marker-target-name': ['x'], 'list': True, 'list-json': True}), big=1)
     J('empty config file', opts=dict(base, **{'removal-marker-target-config': ['t.cfg']}), files={'t.cfg': ''}, name1_len=2)
     # spelling options and times
@@ -179,6 +187,9 @@ def c20_jobs(tier, seed):
             J(f'spelling: delimiters {ds_!r} {de_!r} names {tl_!r} {rm_!r} mode={mname}',
               opts=dict(base, **{'delimiter-start': [ds_], 'delimiter-end': [de_], 'time-limited-tag-name': [tl_], 'removal-marker-tag-name': [rm_],
                                   'removal-marker-target-name': ['y']}, **mode))
+    if True:   # beyond 64 KiB, multi-byte delimiters and text (block-wise readers / decoders)
+        J('spelling: 73 KB multi-byte document, delimiters 「 」, from a file', opts=dict(base, **{'delimiter-start': ['「'], 'delimiter-end': ['」'], 'removal-marker-target-name': ['x'], 'filename': ['in.txt']}), big=8)
+        J('spelling: 73 KB multi-byte document, delimiters 「 」, from stdin', opts=dict(base, **{'delimiter-start': ['「'], 'delimiter-end': ['」'], 'removal-marker-target-name': ['x']}), big=8)
     for t in TIMES:
         for off in ('+00:00', '+09:00', '-0800'):
             J(f'current={t} offset={off}', opts={'time-limited-current': [t], 'time-limited-time-offset': [off], 'filename': ['in.txt']}, tz_list=tzs)
